@@ -515,10 +515,27 @@ def run_section_merge(tier, seed):
             else:
                 dest, src = build_sec(droot), build_sec(sroot)
         wit = {'shape': repr(shape), 'random': [seed, i], 'features': labels, 'thinned': choice, 'attached': attached}
-        feat = labels[0][1] if len(labels) == 1 else 'random-pair'
+        feat = labels[0][1] if len(labels) == 1 else _attribute(name, shape, labels, strict, features)
         outcome = judge(col, name, 'section', dest, src, strict, wit, feat, dest.merge)
         col.case(cls_key=('random', tuple(sorted({l[1] for l in labels})), strict, outcome, thin, attached))
     return col.result()
+
+
+def _attribute(name, shape, labels, strict, features):
+    """Which of several injected features leaves a change behind when it is the only one?  Gives failures of
+    random pairs the same (stable) feature label as the single-feature enumeration."""
+    guilty = []
+    for pos, flabel, where in labels:
+        feature = next(f for f, w in features if f[0] == flabel)
+        droot, sroot, pairs = skeleton_specs(shape)
+        inject(pairs[pos], feature, where)
+        with h.quiet():
+            dest, src = build_sec(droot), build_sec(sroot)
+        scratch = Col('scratch', rule='')
+        judge(scratch, name, 'section', dest, src, strict, {}, flabel, dest.merge)
+        if any(f['cls']['clause'] == 'raise-changes-nothing' for f in scratch.failures):
+            guilty.append(flabel)
+    return '+'.join(sorted(set(guilty))) or 'random-pair'
 
 
 def run_property_merge(tier, seed):
